@@ -289,33 +289,65 @@ def _whitelisted(f, name):
 
 def _names(ctx, index):
     """sites that key a parameter by a name taken from source must strip leading asterisks"""
-    sites = [
-        ("cdd.class_.parse.class_", "target_id", "e.target.id"),
-        ("cdd.class_.parse.class_", "_target_id", "target.id"),
-        ("cdd.shared.docstring_parsers._set_name_and_type", "name", "name"),
-    ]
     n = 0
-    for q, var, src in sites:
-        f = index.func(q)
-        found = False
-        ok = False
-        for node in iter_own(f.node):
-            txt = norm(node) if isinstance(node, ast.expr) else ""
-            if isinstance(node, ast.Call) and isinstance(node.func, ast.Attribute) and node.func.attr == "lstrip":
-                if node.args and isinstance(node.args[0], ast.Constant) and "*" in str(node.args[0].value):
-                    if norm(node.func.value).startswith(src) or src in norm(node.func.value):
-                        found = True
-                        ok = True
-            del txt
+    # (1) the class parser: every read of an assignment target's own identifier (`<x>.target.id`, `<t>.id` of a
+    #     Name target — not `<t>.value.id`, the owner of an attribute target) is the receiver of .lstrip("*")
+    f = index.func("cdd.class_.parse.class_")
+    par = f.mod.parents
+    reads = [
+        a
+        for a in iter_own(f.node)
+        if isinstance(a, ast.Attribute) and a.attr == "id" and isinstance(a.ctx, ast.Load) and not (isinstance(a.value, ast.Attribute) and a.value.attr == "value")
+    ]
+    ctx.need(len(reads) >= 2, "the class parser no longer reads assignment target identifiers ({} reads found)".format(len(reads)))
+    for a in reads:
+        p = par.get(a)
+        gp = par.get(p) if p is not None else None
+        ok = (
+            isinstance(p, ast.Attribute)
+            and p.attr == "lstrip"
+            and isinstance(gp, ast.Call)
+            and gp.func is p
+            and gp.args
+            and isinstance(gp.args[0], ast.Constant)
+            and "*" in str(gp.args[0].value)
+        )
         n += 1
         ctx.ob(
             "C14.names",
             f,
-            "{} = {}.lstrip('*')".format(var, src),
-            found and ok,
-            "" if found and ok else "parameter names derived from `{}` are no longer stripped of leading asterisks: `*args` becomes a key".format(src),
-            line=f.node.lineno,
+            "target identifier read {} of {} is stripped of leading asterisks".format(reads.index(a) + 1, len(reads)),
+            bool(ok),
+            "" if ok else "a parameter name derived from `{}` is not stripped of leading asterisks: `*args` becomes a key".format(norm(a)),
+            line=a.lineno,
         )
+    # (2) the docstring name normaliser strips its `name` parameter
+    f = index.func("cdd.shared.docstring_parsers._set_name_and_type")
+    # `<name>, <entry> = param`: the local that holds the name, whatever it is called
+    nvar = None
+    for st in iter_own(f.node):
+        if isinstance(st, ast.Assign) and isinstance(st.targets[0], ast.Tuple) and len(st.targets[0].elts) == 2 and isinstance(st.value, ast.Name) and st.value.id in f.params and isinstance(st.targets[0].elts[0], ast.Name):
+            nvar = st.targets[0].elts[0].id
+    ctx.need(nvar is not None, "_set_name_and_type no longer unpacks its (name, entry) parameter")
+    ok = any(
+        isinstance(c, ast.Call)
+        and isinstance(c.func, ast.Attribute)
+        and c.func.attr == "lstrip"
+        and norm(c.func.value) == nvar
+        and c.args
+        and isinstance(c.args[0], ast.Constant)
+        and "*" in str(c.args[0].value)
+        for c in iter_own(f.node)
+    )
+    n += 1
+    ctx.ob(
+        "C14.names",
+        f,
+        "name = name.lstrip('*')",
+        ok,
+        "" if ok else "parameter names derived from `name` are no longer stripped of leading asterisks: `*args` becomes a key",
+        line=f.node.lineno,
+    )
     ctx.count("asterisk_strip_sites", n)
 
 
